@@ -31,6 +31,10 @@ pub struct Profile {
     /// a key class `x~…` that is overwritten *and* weakly deleted without discipline; excluded
     /// from model comparisons (used where only model-independent audits are decisive)
     pub wild_weak_deletes: bool,
+    /// a quarter of the runs start with a prelude that spreads one blob file over many
+    /// single-key tables in the last level (writes, flush, major compaction with target size 1),
+    /// so that later partial merges meet blob files shared with tables outside the compaction
+    pub shared_blob_prelude: bool,
 }
 
 pub const W_WRITE: usize = 0;
@@ -78,6 +82,7 @@ impl Profile {
             tiny_everything: true,
             blob_ingest: false,
             wild_weak_deletes: false,
+            shared_blob_prelude: false,
         }
     }
 }
@@ -614,6 +619,26 @@ pub fn gen_run(property: &str, seed: u64, p: &Profile) -> RunSpec {
         fifo_counter: 0,
     };
     let mut ops = Vec::with_capacity(n_ops);
+    if p.shared_blob_prelude && cfg.blob.is_some() && r.chance(1, 4) {
+        let thr = cfg.blob.as_ref().map_or(8, |b| b.threshold as usize);
+        let n = 3 + r.usize(5).min(keys.len().saturating_sub(3));
+        for k in keys.iter().take(n) {
+            st.next_value_id += 1;
+            let mut v = format!("v{}:", st.next_value_id).into_bytes();
+            while v.len() < thr + 4 {
+                v.push(b'p');
+            }
+            ops.push(Op::Write {
+                items: vec![WriteItem {
+                    k: k.clone(),
+                    kind: WKind::Put,
+                    v: Bytes(v),
+                }],
+            });
+        }
+        ops.push(Op::FlushActive { wm: Wm::Zero });
+        ops.push(Op::Major { target: 1, wm: Wm::Zero });
+    }
     for _ in 0..n_ops {
         let op = gen_op(&mut st, &mut r, &cfg, &keys, &once, p, &weights);
         st.disc.on_op(&op);
